@@ -414,6 +414,16 @@ def pyStrLower (v : J) : Chars := (pyStr v).map Char.toLower
 
 def jsonDumps := Introspect.jsonDumps
 
+/-- `isinstance(unwrap_type(t), <class of kind k>)` -/
+def baseIsKind (s : SchemaD) (t : Ty) (k : Kind) : Bool :=
+  match s.findType t.base with
+  | some td => td.kind == k
+  | none => false
+
+/-- `"".join(TABLE.get(c, c) for c in cs)` -/
+def escapeWith (tbl : List (Char × Chars)) (cs : Chars) : Chars :=
+  cs.flatMap fun c => (tbl.lookup c).getD [c]
+
 /-- `print_ast(ast_node_from_value(v, t))`; `none` stands for the ValueError (the model has no exceptions
     here: the correspondence compares the outcome) -/
 def printAstOfValue (s : SchemaD) (v : J) (t : Ty) : Option Chars :=
